@@ -51,3 +51,60 @@ def quant_nf(facts, body, tree):
     while isinstance(p, tuple) and p and p[0] == 'un' and p[1] == 'Not' and isinstance(peel(p[2]), tuple) and peel(p[2])[0] == 'un' and peel(p[2])[1] == 'Not':
         p = peel(peel(p[2])[2])
     return kind, src, p
+
+
+def quant_of_body(facts, body):
+    """the same normal form for a function that decides by an explicit loop with early returns:
+    `for x in src { if !p(x) { return false } } true`  ->  ('all', src, p)      (and the dual -> 'any'), in any loop spelling
+    (`loop { match it.next() { Some(x) if p(x) => continue, Some(_) => return false, None => return true } }`)"""
+    from . import cfg, pathx
+    from .seq import next_call_of, iter_init, item_subst_fn, subst
+    from .sym import sym, variant_edges
+    loops = cfg.loops(body)
+    if len(loops) != 1:
+        return None
+    lp = loops[0]
+    nx = next_call_of(body, lp)
+    if nx is None:
+        return None
+    segs = seq_of_iter(facts, body, iter_init(body, sym(body, nx.args[0])))
+    if segs is None or len(segs) != 1 or segs[0].kind != 'each' or segs[0].conds:
+        return None
+    f = item_subst_fn(body, nx, 0)
+    res = nosite(sym(body, nx.dest))
+    rows = []
+    for p, end in pathx.paths_from(body, lp.header) or ():
+        pe = pathx.eval_versioned(body, p, {}, lambda e, pe_: ())
+        if pe is None or end[0] == 'exit':
+            continue
+        arm = None
+        for t, names in pe.variants:
+            if nosite(peel(t)) == res and len(names) == 1:
+                arm = list(names)[0]
+        atoms = [(subst(nosite(t), f), pol) for t, pol in pe.atoms]
+        rv = _bool_const(pe.env.get(0)) if end[0] == 'return' and pe.env.get(0) is not None else None
+        rows.append((arm, end[0], rv, atoms))
+    done = [r for r in rows if r[0] == 'None']
+    if len(done) != 1 or done[0][1] != 'return' or done[0][2] is None or done[0][3]:
+        return None
+    at_end = done[0][2]                      # all: true at exhaustion; any: false
+    early = [r for r in rows if r[0] == 'Some' and r[1] == 'return']
+    cont = [r for r in rows if r[0] == 'Some' and r[1] == 'back']
+    if not early or not cont or any(r[2] is None or r[2] == at_end for r in early):
+        return None
+    # one predicate: every early return is taken under (p, pol_e), every continuation under (p, not pol_e)
+    preds = set()
+    for r in early + cont:
+        if len(r[3]) != 1:
+            return None
+        t, pol = r[3][0]
+        preds.add((nosite(core(t)), pol if r in early else (not pol)))
+    if len(preds) != 1:
+        return None
+    t, pol_e = list(preds)[0]
+    # all(p): leaves early (false) when !p  -> p = t if pol_e is False else !t ;  any(p): leaves early (true) when p
+    if at_end is True:
+        pred = t if pol_e is False else ('un', 'Not', t)
+        return 'all', core(segs[0].src), pred
+    pred = t if pol_e is True else ('un', 'Not', t)
+    return 'any', core(segs[0].src), pred
